@@ -30,7 +30,17 @@ RULE = ("family optimum: SPDC::default() then seeded random configurations (11 c
         "adaptive Simpson, optionally interleaved with optimum_range, built first and checked afterwards against references "
         "evaluated with the same integrator, centre = 1 for each; 40 (setup, integrator) samples re-built at the end of the run "
         "(bit-identical where all sums are sequential); "
-        "integrator drawn from Simpson-10/20/50, Gauss-Legendre-8/20")
+        "integrator drawn from Simpson-10/20/50, Gauss-Legendre-8/20; "
+        "every second setup AND its optimum EDITED IN PLACE through the public fields / mutators (crystal_setup.pm_type = another "
+        "type, signal/idler/pump.set_polarization -> beams inconsistent with pm_type; idler retuned / re-aimed, signal external "
+        "angle, crystal angles / temperature, poling switched on/off or re-assigned, with_swapped_signal_idler, explicit waist "
+        "positions; one or two edits) and optimised (again): wiring case (K opt), idempotence, kept, C20.auto (waist positions / "
+        "idler / crystal angle or poling = the automatic ones of the RESULT'S OWN beams, via with_optimal_waist_positions, "
+        "optimal_waist_position, optimum_idler, optimum_crystal_theta, optimum_periodic_poling), centre = 1 incl. singles; "
+        "every third setup a sweep over an INTERACTING pair (signal/idler.theta_external_deg or poling_period_um with a property "
+        "its setter reads, both orders, external angles 0.2-5 deg, ranges near the base values), any two of the 25 named paths, "
+        "or user closures for SPDCIter::new (relative steps): each cell normalised = raw / reference (1e-12), = the value of a "
+        "setup built individually from a fresh clone of the base (1e-9), = a one-cell sweep of that cell (1e-12); K sweep")
 RESIDUAL = ("existence of an optimised version (the unwrap() in JointSpectrum::new / jsi_values_normalized panics when there is none: "
             "C17) and convergence of the two simplex searches (C04); setups whose optimum has a zero or non-finite reference are "
             "skipped and counted; floating-point rounding (measured by the comparison, not proved)")
